@@ -551,6 +551,45 @@ func restScenC19(d *restDriver, c *ctx) {
 		}
 		probe()
 	}
+	// poisoning: a request that is refused because ONE field has the wrong type, while its other fields carry
+	// non-default values, must not influence the next, minimal request to the same endpoint
+	for round := 0; round < c.n(3, 30); round++ {
+		for _, path := range []string{"/hotp/generate", "/hotp/validate", "/totp/generate", "/totp/validate"} {
+			wrong := []string{`"counter":"x"`, `"timestamp":"x"`, `"period":"x"`, `"skew":[1]`, `"counter":1.5`}[c.rng.Intn(5)]
+			if strings.HasSuffix(path, "generate") && strings.Contains(wrong, "skew") {
+				wrong = `"counter":"x"`
+			}
+			bad(path, "wrongtype", []byte(fmt.Sprintf(`{"secret":"GEZDGNBVGY3TQOJQGEZDGNBVGY3TQOJQ","code":"12345678","digits":"8","algorithm":"SHA512","period":60,"skew":3,%s}`, wrong)))
+			// minimal probes right after it: optional fields absent
+			id++
+			key := c.randBytes(20)
+			q := newRReq()
+			q.Secret = rfStr(b32(key))
+			ctr := uint64(1 + c.rng.Intn(1000))
+			ts := int64(1700000000 + c.rng.Intn(100000))
+			var fill func(ev *restEvent)
+			switch path {
+			case "/hotp/generate":
+				q.Counter = rfNum(ctr)
+				fill = func(ev *restEvent) { ev.Orc = allAlgWindow(key, ctr, 0) }
+			case "/hotp/validate":
+				q.Counter = rfNum(ctr)
+				q.Code = rfStr(refHOTP(key, ctr+uint64(c.rng.Intn(3)), 6, 0)) // distance 0..2 with the default window 0
+				fill = func(ev *restEvent) { ev.Orc = allAlgWindow(key, ctr, margin) }
+			case "/totp/generate":
+				q.Timestamp = rfInt(ts)
+				fill = func(ev *restEvent) { ev.Step0 = W64(uint64(ts) / 30); ev.Orc = allAlgWindow(key, uint64(ts)/30, 0) }
+			default:
+				q.Timestamp = rfInt(ts)
+				q.Code = rfStr(refHOTP(key, uint64(ts)/30+uint64(c.rng.Intn(3)), 6, 0))
+				fill = func(ev *restEvent) {
+					ev.Step0 = W64(uint64(ts) / 30)
+					ev.Orc = allAlgWindow(key, uint64(ts)/30, margin)
+				}
+			}
+			d.do(cl, job{scn: fmt.Sprintf("C19/afterpoison/%d", id), method: "POST", path: path, cls: "typed", probe: true, q: q, fill: fill})
+		}
+	}
 	// numbers at and beyond 64-bit limits, extremes of skew / period / counter / timestamp (well typed: answered as C18 says)
 	for _, sk := range []uint64{10, 11, 1000, 1000000, 1000000000, 1 << 40, 1 << 63, 1<<64 - 1} {
 		for _, path := range []string{"/totp/validate", "/hotp/validate"} {
